@@ -49,6 +49,7 @@ func init() {
 			ruleENC(c)
 			ruleWBAppend(c)
 			ruleODBlock(c)
+			ruleCPFresh(c, findReadFile(c.P))
 			c.Note("not decided: contents of the encodings appended by codec.Write (C01/C02); determinism of the compressors")
 		})
 
